@@ -169,4 +169,44 @@ PROPS = {
              "nontrivial": lambda ev: ev.get("cls") != "uniform"},
         ],
     },
+    "C07": {
+        "level": "model_checking",
+        "claim": "BMOC values are given a quadtree-forest semantics in TLA+ (map deepest cell -> absent/partial/full without expansion); the four "
+                 "operators are structural recursions with the documented leaf tables and Canonical() is the packed normal form. MC_Bmoc checks on "
+                 "every pair of a bounded universe (a history state machine over two registers) that Canonical is a normal form and that not-not, "
+                 "De Morgan, commutativity, idempotence, a xor a = empty, a or not a = sky hold. TLC then enumerates every ordered pair of plain MOCs "
+                 "of the universe with dmax mixes; the harness executes not/and/or/xor on the real crate and TLC validates the resulting events "
+                 "(semantics AND canonical packed form AND dmax). Seeded random plain MOCs up to depth 29 (bushy, deep spines, empty, full sky, "
+                 "single deepest first/last cell) are validated register-style over operation histories, together with the laws evaluated by "
+                 "the crate through BMOC::equals.",
+        "rule": "events = new (operand), op (not/and/or/xor over registers, results feed later operations), law (BMOC::equals on both sides of a law); "
+                "non-trivial = every distinct op/law event whose operands are non-empty",
+        "assumptions": ["TLC / SANY and the CommunityModules Json/IOUtils are correct",
+                        "the harness's projection of a BMOC (its own 6-line decoder of the raw u64 entries: sentinel bit, flag bit, base-4 path) and BMOCBuilderUnsafe::push / to_bmoc used to build operands"],
+        "stages": [
+            {"kind": "mc", "module": "MC_Bmoc", "cfg": "MC_Bmoc_plain.cfg", "workers": 6},
+            {"kind": "gentrace", "module": "Gen_Bmoc", "cfg": {"quick": "Gen_Bmoc_plain.cfg", "thorough": "Gen_Bmoc_plain.cfg"}, "scenario": "BMOC",
+             "trace_module": "Trace_Bmoc", "trace_cfg": "Trace_Bmoc.cfg", "exhaustive": True, "clauses": ["panic", "dmax", "semantics", "canonical", "law_holds", "operand_wellformed"]},
+            {"kind": "rec", "scenario": "C07", "count": {"quick": 3000, "thorough": 60000}, "trace_module": "Trace_Bmoc", "trace_cfg": "Trace_Bmoc.cfg",
+             "shards": 10, "clauses": ["panic", "dmax", "semantics", "canonical", "law_holds", "operand_wellformed"],
+             "nontrivial": lambda ev: ev["ev"] in ("op", "law")},
+        ],
+    },
+    "C08": {
+        "level": "model_checking",
+        "claim": "Same semantics with the three-valued leaf tables (not swaps absent/full, and = min, or = max, xor table). MC_Bmoc checks the laws "
+                 "that survive partial flags on all 81x81 pairs of the flagged universe over histories; TLC enumerates all 6561 ordered pairs "
+                 "(dmax mixes in thorough), executed on the crate and validated semantically (several cell lists denote the same map, so no "
+                 "canonical form is demanded); random mixes of flags and depths up to 29 are validated register-style.",
+        "rule": "events = new / op over registers with arbitrary flags; non-trivial = every distinct op event",
+        "assumptions": ["TLC / SANY and the CommunityModules Json/IOUtils are correct",
+                        "the harness's projection of a BMOC (its own 6-line decoder of the raw u64 entries: sentinel bit, flag bit, base-4 path) and BMOCBuilderUnsafe::push / to_bmoc used to build operands"],
+        "stages": [
+            {"kind": "mc", "module": "MC_Bmoc", "cfg": "MC_Bmoc_flags.cfg", "workers": 6},
+            {"kind": "gentrace", "module": "Gen_Bmoc", "cfg": {"quick": "Gen_Bmoc_flags.cfg", "thorough": "Gen_Bmoc_flags_thorough.cfg"}, "scenario": "BMOC",
+             "trace_module": "Trace_Bmoc", "trace_cfg": "Trace_Bmoc.cfg", "exhaustive": True, "clauses": ["panic", "dmax", "semantics", "operand_wellformed"]},
+            {"kind": "rec", "scenario": "C08", "count": {"quick": 3000, "thorough": 60000}, "trace_module": "Trace_Bmoc", "trace_cfg": "Trace_Bmoc.cfg",
+             "shards": 10, "clauses": ["panic", "dmax", "semantics", "operand_wellformed"], "nontrivial": lambda ev: ev["ev"] == "op"},
+        ],
+    },
 }
